@@ -14,12 +14,15 @@ RULE = ("abstract lines (single literals plain/percent/money/unit, with magnitud
         "arithmetic in 8 currencies; unit conversions inside and across the metric/imperial/memory families; variables "
         "defined on one line and used on later lines) x ordered pairs of the six separator configurations "
         "(',' '.'), ('.' ','), ('.' ''), (',' ''), ('.' ' '), (',' \"'\"); literals rendered per configuration (integer "
-        "part grouped in threes when the thousands separator is '.' or ','; fraction after the decimal separator); "
+        "part grouped in threes when the thousands separator is '.' or ','; fraction after the decimal separator); plus a "
+        "dedicated kind grouped-other-*: literals grouped by a thousands separator ' ' or \"'\" with the normal expectation "
+        "(known finding C08-K1); "
         "non-trivial = both evaluations give a value and the line has a literal with a fraction or a grouped integer "
         "part; distinct = distinct history")
 ASSUMPTIONS = ["integer parts are grouped only when the thousands separator is '.' or ',': the literal regexes of "
                "config.json admit no other character inside a literal, so \"1 234\" or \"1'234\" is not one literal "
-               "under any configuration (with ' ' or \"'\" as thousands separator literals are written ungrouped)",
+               "under any configuration: outside the dedicated kind grouped-other-* (known finding C08-K1) literals are "
+               "written ungrouped when the thousands separator is ' ' or \"'\"",
                "intended number of a literal = python float of '<integer digits>.<fraction digits>' (correctly rounded)"]
 
 CONFIGS = [(",", "."), (".", ","), (".", ""), (",", ""), (".", " "), (",", "'")]
@@ -30,9 +33,12 @@ class Lit:
     def __init__(self, ip, fp="", group=False):
         self.ip, self.fp, self.group = ip, fp, group
 
-    def render(self, d, t):
+    def grouped_under(self, t, exotic=False):
+        return self.group and len(self.ip) > 3 and (t in (".", ",") or (exotic and t != ""))
+
+    def render(self, d, t, exotic=False):
         ip = self.ip
-        if self.group and t in (".", ",") and len(ip) > 3:
+        if self.grouped_under(t, exotic):
             parts = []
             while len(ip) > 3:
                 parts.insert(0, ip[-3:])
@@ -48,8 +54,8 @@ class Lit:
         return float(self.ip + "." + (self.fp or "0"))
 
 
-def render(parts, d, t):
-    return "".join(p.render(d, t) if isinstance(p, Lit) else p for p in parts)
+def render(parts, d, t, exotic=False):
+    return "".join(p.render(d, t, exotic) if isinstance(p, Lit) else p for p in parts)
 
 
 def rlit(rng, small=False, frac=None):
@@ -206,35 +212,47 @@ def shape(rng):
     return "var-unit-cross", ["w = ", a, " ", rng.choice(f1), "\nw ", rng.choice(TO), " ", rng.choice(f2)]
 
 
+# (kind, parts, expected value of every line or None): the expected values are computed here with python floats by the
+# textbook operation sequence, so a separator leak that hits both configurations alike is still seen
 PINNED = [
-    ("unit-conv-cross", [Lit("1"), " inch to mm"]),
-    ("unit-conv", [Lit("1", "5"), " km to m"]),
-    ("unit-conv", [Lit("1"), " m to km"]),
-    ("unit-conv", [Lit("1234", "5", True), " m to km"]),
-    ("unit-conv-cross", [Lit("2", "54"), " cm to inch"]),
-    ("unit-conv-cross", [Lit("1", "5"), " oz to g"]),
-    ("unit-conv", [Lit("1"), " kg to hg"]),
-    ("unit-conv", [Lit("1", "5"), " mb to kb"]),
-    ("var-number", ["x = ", Lit("1234", "5", True), "\nx * ", Lit("2")]),
-    ("money-conv", [Lit("10"), " usd to try"]),
-    ("money-conv", [Lit("1234", "56", True), " usd to try"]),
-    ("arith", [Lit("1234", "5", True), " * ", Lit("2")]),
-    ("arith", [Lit("1000000", "", True), " / ", Lit("3")]),
-    ("pct-plus", [Lit("1234", "5", True), " + ", Lit("12", "5"), "%"]),
-    ("literal", [Lit("1", "000", False)]),
-    ("literal", [Lit("1000", "", True)]),
+    ("unit-conv-cross", [Lit("1"), " inch to mm"], [25.4]),
+    ("unit-conv", [Lit("1", "5"), " km to m"], [1500.0]),
+    ("unit-conv", [Lit("1"), " m to km"], [1.0 / 10 / 10 / 10]),
+    ("unit-conv", [Lit("1234", "5", True), " m to km"], [1234.5 / 10 / 10 / 10]),
+    ("unit-conv-cross", [Lit("2", "54"), " cm to inch"], None),
+    ("unit-conv-cross", [Lit("1", "5"), " oz to g"], None),
+    ("unit-conv", [Lit("1"), " kg to hg"], [10.0]),
+    ("unit-conv", [Lit("1", "5"), " mb to kb"], [1536.0]),
+    ("var-number", ["x = ", Lit("1234", "5", True), "\nx * ", Lit("2")], [1234.5, 2469.0]),
+    ("money-conv", [Lit("10"), " usd to try"], None),
+    ("money-conv", [Lit("1234", "56", True), " usd to try"], None),
+    ("arith", [Lit("1234", "5", True), " * ", Lit("2")], [2469.0]),
+    ("arith", [Lit("1000000", "", True), " / ", Lit("3")], [1000000.0 / 3]),
+    ("pct-plus", [Lit("1234", "5", True), " + ", Lit("12", "5"), "%"], [1234.5 + (1234.5 / 100) * 12.5]),
+    ("literal", [Lit("1", "000", False)], None),
+    ("literal", [Lit("1000", "", True)], None),
 ]
 
 
-def pair_case(kind, parts, c1, c2):
+KNOWN_GROUPING = "C08-grouping-separator-not-lexed"
+
+
+def pair_case(kind, parts, c1, c2, expect=None, exotic=False):
+    """exotic: group the integer parts by the thousands separator also when it is not '.' or ',' (the convention the
+    configuration asks for; known finding C08-K1: the lexer splits such literals)"""
     ops = []
     for (d, t) in (c1, c2):
-        ops += [{"op": "set_dec", "v": d}, {"op": "set_thou", "v": t}, {"op": "exec", "lang": "en", "text": render(parts, d, t)}]
+        ops += [{"op": "set_dec", "v": d}, {"op": "set_thou", "v": t},
+                {"op": "exec", "lang": "en", "text": render(parts, d, t, exotic)}]
     lits = [p for p in parts if isinstance(p, Lit)]
-    meta = {"kind": kind, "sensitive": any(l.sensitive() for l in lits), "cfg": [list(c1), list(c2)]}
+    meta = {"kind": kind, "sensitive": any(l.sensitive() for l in lits), "cfg": [list(c1), list(c2)],
+            # syntactic record of what was written: which literals are grouped by which separator in each evaluation
+            "grouped_by": [sorted({t for l in lits if l.grouped_under(t, exotic)}) for (d, t) in (c1, c2)]}
     if kind in ("literal", "literal-percent", "literal-money", "literal-unit", "literal-neg"):
         v = lits[0].value()
         meta["intended"] = bits(-v if kind == "literal-neg" else v)
+    if expect is not None:
+        meta["expect"] = [bits(x) for x in expect]
     return {"ops": ops, "meta": meta}
 
 
@@ -242,10 +260,30 @@ def generate(rng, tier):
     n = 330 if tier == "quick" else 5000
     cases = []
     pairs = [(a, b) for a in CONFIGS for b in CONFIGS if a != b]
-    for i, (kind, parts) in enumerate(PINNED):
+    for i, (kind, parts, expect) in enumerate(PINNED):
         # the pinned lines under the two mainstream conventions and one rotating other pair
-        cases.append(pair_case(kind, parts, CONFIGS[0], CONFIGS[1]))
-        cases.append(pair_case(kind, parts, *pairs[(7 * i + 3) % len(pairs)]))
+        cases.append(pair_case(kind, parts, CONFIGS[0], CONFIGS[1], expect))
+        cases.append(pair_case(kind, parts, *pairs[(7 * i + 3) % len(pairs)], expect=expect))
+    # grouped literals under a thousands separator that is not '.' or ',' (normal expectation; known finding C08-K1)
+    exotic_cfgs = [c for c in CONFIGS if c[1] not in (".", ",", "")]
+    plain_cfgs = [c for c in CONFIGS if c[1] in (".", ",", "")]
+    big = [Lit("1234", "5", True), Lit("1234", "", True), Lit("1000000", "", True), Lit("12345678", "125", True)]
+    shapes = [lambda l: ("grouped-other-literal", [l]), lambda l: ("grouped-other-literal-percent", [l, "%"]),
+              lambda l: ("grouped-other-literal-money", [l, " usd"]), lambda l: ("grouped-other-arith", [l, " * ", Lit("2")]),
+              lambda l: ("grouped-other-unit", [l, " m to km"]), lambda l: ("grouped-other-var", ["x = ", l, "\nx * ", Lit("2")])]
+    m = 14 if tier == "quick" else 200
+    for i in range(m):
+        l = big[i % len(big)] if i < 8 else rlit(rng)
+        if i >= 8:
+            l = Lit(l.ip if len(l.ip) > 3 else l.ip + "000", l.fp, True)
+        kind, parts = shapes[i % len(shapes)](l)
+        ce = exotic_cfgs[i % len(exotic_cfgs)]
+        cp = plain_cfgs[(i // 2) % len(plain_cfgs)]
+        # the single-literal shapes keep the "intended number" expectation of their plain kind
+        base = kind.replace("grouped-other-", "") if kind.startswith("grouped-other-literal") else kind
+        pc = pair_case(base, parts, cp, ce, exotic=True)
+        pc["meta"]["kind"] = kind
+        cases.append(pc)
     while len(cases) < n:
         kind, parts = shape(rng)
         c1, c2 = rng.choice(pairs)
@@ -300,6 +338,16 @@ def spec_check(c, rec, header):
         if va != vb:
             return "line %d: %r under %r = %s %s but %r under %r = %s %s" % (
                 i, t1, c["meta"]["cfg"][0], va[0], va[1], t2, c["meta"]["cfg"][1], vb[0], vb[1])
+    exp = c["meta"].get("expect")
+    if exp is not None:
+        if len(a) != len(exp):
+            return "%r: expected %d lines, got %d" % (t1, len(exp), len(a))
+        for i, (la, e) in enumerate(zip(a, exp)):
+            k, v = line_value(la)
+            if k != "item" or "v" not in v:
+                return "line %d of %r: expected the value %.17g, got %s %r" % (i, t1, from_bits(e), k, v)
+            if int(v["v"]) != e:
+                return "line %d of %r: expected %.17g, got %.17g" % (i, t1, from_bits(e), from_bits(v["v"]))
     want = c["meta"].get("intended")
     if want is not None:
         k, v = line_value(a[0]) if a and a[0] is not None else ("none", None)
@@ -311,8 +359,21 @@ def spec_check(c, rec, header):
 
 
 def known_class(c, rec, verdict, known):
+    """C08-K1, narrow and syntactic: an evaluation whose configured thousands separator is not '.' or ',' was given a
+    line that contains a literal grouped by that separator, and the failure is a wrong value (never a panic)"""
+    if KNOWN_GROUPING not in {f["class"] for f in known}:
+        return None
+    if verdict.startswith("an evaluation panicked"):
+        return None
+    for (d, t), by in zip(c["meta"]["cfg"], c["meta"].get("grouped_by", [[], []])):
+        if t not in (".", ",", "") and t in by:
+            return KNOWN_GROUPING
     return None
 
 
 def witness_fails(f, wc, rec, header):
-    return False
+    """the recorded witness still prints the recorded (wrong) text"""
+    lines = last_lines(rec)
+    if not lines or lines[-1] is None:
+        return False
+    return lines[-1].get("out") == f["observed"].get("out")
